@@ -989,8 +989,8 @@ Section Top.
 
   Lemma ginv_st0 U : ginv ds U st0.
   Proof.
-    unfold ginv. cbn. repeat split; try (intros ? []); try constructor.
-    intros p l d [].
+    unfold ginv. cbn. split; [constructor|]. split; [intros ? []|]. split; [intros ? []|].
+    intros q l d [].
   Qed.
 
   (** ConfigBuilder::LoadConfig never exhausts the resolve fuel, whatever the
@@ -1003,6 +1003,7 @@ Section Top.
     pose proof (compile_h_ok ds (mkU ds [name]) (mkU_custom ds [name]) (mkU_refs ds [name]) st0 name
                   (ginv_st0 _) Hin) as (G1 & _ & O1).
     destruct (compile_h ds st0 name) as [[id loaded] st1]. cbn [snd] in *.
+    change (st_oof st0) with false in O1.
     assert (T1 : tinv 1 st1) by (exists [name]; split; [cbn; lia|exact G1]).
     pose proof (link_h_total st1 id T1) as L.
     destruct loaded.
